@@ -128,7 +128,7 @@ VARIANTS = [
     V("C09", "class compare after escaping", GEN, "        class_name_camel_case = _convert_name_to_convention(class_name, self.naming_convention, is_class_name=True)\n        if class_name_camel_case != class_name:", "        class_name_camel_case = _replace_if_safeds_keyword(_convert_name_to_convention(class_name, self.naming_convention, is_class_name=True))\n        if class_name_camel_case != class_name:", "C09.ANNOT-IFF-DIFF"),
     V("C09", "parameter annotation inverted", GEN, "            if camel_case_name != name:\n                # Memorize the changed name", "            if camel_case_name == name:\n                # Memorize the changed name", "C09.ANNOT-IFF-DIFF"),
     V("C09", "module annotation dropped", GEN, "        if package_info != package_info_camel_case:\n            module_name_info = f'@PythonModule(\"{package_info}\")\\n'\n        module_header = f\"{module_name_info}package {_replace_if_safeds_keyword_in_path(package_info_camel_case)}\\n\"\n\n        # Create docstring", "        module_header = f\"{module_name_info}package {_replace_if_safeds_keyword_in_path(package_info_camel_case)}\\n\"\n\n        # Create docstring", "C09.ANNOT-IFF-DIFF"),
-    V("C09", "PYTHON path converts", HELP, '    if name == "_" or naming_convention == NamingConvention.PYTHON:\n        return name', '    if name == "_":\n        return name', "C09.OFF-IDENTITY"),
+    V("C09", "PYTHON path converts", HELP, '    if not name.strip("_") or naming_convention == NamingConvention.PYTHON:\n        return name', '    if not name.strip("_"):\n        return name', "C09.OFF-IDENTITY"),
     V("C09", "class declared lowerCamel", GEN, "class_name_camel_case = _convert_name_to_convention(class_name, self.naming_convention, is_class_name=True)", "class_name_camel_case = _convert_name_to_convention(class_name, self.naming_convention)", "C09."),
     V("C09", "result name unconverted", GEN, "            result_name = _convert_name_to_convention(result.name, self.naming_convention)\n", "            result_name = result.name\n", "C09."),
     V("C09", "unparse round trip", GEN, "<<unparse>>", "", None),
@@ -161,12 +161,12 @@ VARIANTS = [
     V("C04", "functions not guarded", GEN, "        for function in module.global_functions:\n            if function.is_public:", "        for function in module.global_functions:\n            if function:", "C04.EMIT-GUARD"),
     V("C04", "attribute guard replaced", GEN, "            if not attribute.is_public:\n                continue", "            if not attribute:\n                continue", "C04.EMIT-GUARD"),
     V("C04", "inner class guard dropped", GEN, "        for inner_class in class_.classes:\n            if inner_class.is_public:", "        for inner_class in class_.classes:\n            if inner_class.name:", "C04.EMIT-GUARD"),
-    V("C04", "dunder exception widened", VIS, "        if is_internal(name) and not name.endswith(\"__\"):\n            return False", "        if is_internal(name) and not name.endswith(\"_\"):\n            return False", "C04.PUBLICITY-TABLE"),
+    V("C04", "dunder exception widened", VIS, "        if is_internal(name) and not (name.startswith(\"__\") and name.endswith(\"__\")):\n            return False", "        if is_internal(name) and not (name.startswith(\"_\") and name.endswith(\"_\")):\n            return False", "C04.PUBLICITY-TABLE"),
     V("C04", "parent publicity ignored", VIS, "            return parent.is_public\n", "            return True\n", "C04.PUBLICITY-TABLE"),
     V("C04", "path segments not checked", VIS, "        return all(not is_internal(it) for it in qname.split(\".\")[:-1])", "        return True", "C04.PUBLICITY-TABLE"),
     V("C04", "class publicity of other name", VIS, "            is_public=self._is_public(node.name, node.fullname),\n            docstring=docstring,", "            is_public=self._is_public(id_, node.fullname),\n            docstring=docstring,", "C04.JSON-FLAG"),
-    V("C04", "by-name guard flattened", VIS, "                            if qname.endswith(qualified_import.qualified_name) and (\n                                qualified_import.alias is not None\n                                and not is_internal(qualified_import.alias)\n                                or (qualified_import.alias is None and not_internal)\n                            ):",
-      "                            if (\n                                qname.endswith(qualified_import.qualified_name)\n                                and qualified_import.alias is not None\n                                and not is_internal(qualified_import.alias)\n                                or (qualified_import.alias is None and not_internal)\n                            ):", "C04.REEXPORT-GUARDS"),
+    V("C04", "by-name guard flattened", VIS, "                            if f\".{qname}\".endswith(f\".{qualified_import.qualified_name}\") and (\n                                qualified_import.alias is not None\n                                and not is_internal(qualified_import.alias)\n                                or (qualified_import.alias is None and not_internal)\n                            ):",
+      "                            if (\n                                f\".{qname}\".endswith(f\".{qualified_import.qualified_name}\")\n                                and qualified_import.alias is not None\n                                and not is_internal(qualified_import.alias)\n                                or (qualified_import.alias is None and not_internal)\n                            ):", "C04.REEXPORT-GUARDS"),
     V("C04", "internal alias accepted", VIS, "                                    or (qualified_import.alias is not None and not is_internal(qualified_import.alias))\n", "                                    or qualified_import.alias is not None\n", "C04.REEXPORT-GUARDS"),
     V("C04", "unparse round trip", VIS, "<<unparse>>", "", None),
     # ------------------------------------------------------------------ C11
